@@ -808,6 +808,10 @@ Fixpoint eval (fuel : nat) (e : expr) (ro : bool) (vs : vars) (ctx : list ptr) (
         let* ol0 := ev l ro vs ctx st in
         let ro := ret_ro l ro in
         each (fun c st0 =>
+                let* n0 := deref_r st0 c in
+                match n0 with
+                | Map _ => Err          (* the Content of a map alternates keys and values: refused *)
+                | _ =>
                 let* oa := ev a ro vs [c] st0 in
                 let* ta := match fst oa with [p] => first_text (snd oa) [p] [] | _ => Err end in
                 let* za := Z_of_index ta in
@@ -819,12 +823,13 @@ Fixpoint eval (fuel : nat) (e : expr) (ro : bool) (vs : vars) (ctx : list ptr) (
                 match n with
                 | Seq items =>
                     let len := Z.of_nat (length items) in
-                    let ra := if (za <? 0)%Z then (len + za)%Z else za in
+                    (* a start further left than the array is long is clamped to the beginning *)
+                    let ra := if (za <? 0)%Z then Z.max 0 (len + za) else za in
                     let rb := if (zb <? 0)%Z then (len + zb)%Z else if (zb >? len)%Z then len else zb in
-                    if (ra <? rb)%Z && ((ra <? 0)%Z || (rb >? len)%Z || (ra >=? len)%Z) then Panic else
                     one (alloc_repl st1 c (Seq (firstn (Z.to_nat (rb - ra)) (skipn (Z.to_nat ra) items))))
                 | Scalar _ _ => Unsup
-                | Map _ => Unsup
+                | Map _ => Err
+                end
                 end) (fst ol0) (snd ol0)
     | ERecurse =>
         each (fun c st0 =>
